@@ -67,6 +67,10 @@ Theorem c02_escape_no_raw_linebreak : forall T,
   forall s, ~ In LF (escape T false s) /\ ~ In CR (escape T false s).
 Proof. exact escape_no_linebreak_single. Qed.
 
+(** Only the values of ESCAPES are ever changed (used by the exhaustive code-point comparison with escape_text). *)
+Theorem c02_escape_identity_elsewhere : forall T ml c, ~ In c (map snd (esc_table T)) -> esc_char T ml c = [c].
+Proof. exact esc_char_other. Qed.
+
 (** Line accounting: no raw line feed when LF must be escaped; otherwise one line per LF of the string. *)
 Theorem c02_lines_single : forall T ml, must_escape T ml LF = true -> forall s, raw_lfs T ml s = 0.
 Proof. exact raw_lfs_zero. Qed.
